@@ -3,7 +3,7 @@ From Coq Require Import ZArith List Arith.
 From NTT Require Import Setters.
 From NTT Require SetterSpec GenSetterEq.
 From NTT Require Setters SetterSpec SetMpzSpec ScalarSetSpec.
-From NTT.gen Require GenLoop.
+From NTT.gen Require GenLoop GenCreators.
 From NTT.gen Require GenLoop.
 Local Open Scope Z_scope.
 
@@ -96,3 +96,22 @@ Example C15_source_nonvacuous :
   GenLoop.gen_set_scalar_u32 10%nat 4 (repeat 7 8) 1073479682 true 2 (1073479681 :: 1072496641 :: nil) = Some (1 :: 0 :: 0 :: 0 :: 983041 :: 0 :: 0 :: 0 :: nil) /\
   GenLoop.gen_set_scalar_u32 10%nat 4 (repeat 7 8) 0 true 2 (1073479681 :: 1072496641 :: nil) = Some (repeat 0 8).
 Proof. vm_compute. repeat split. Qed.
+Print Assumptions C15_source_nonvacuous.
+
+(* THE ENTRY POINTS.  The constructors, assignment operators and setter wrappers of class poly are read from the source on every run
+   (tools/cxxcreators2coq.py -> gen/GenCreators.v): each is a one-call wrapper of set(...) / set_mpz(...) on the same object, its arguments being its
+   own parameters in order, or `p0.begin(), p0.end()` and the remaining parameters, or the one-element list `{p0}`; poly() delegates to poly(0).
+   Every one of them reaches, through at most three such calls, one of the implementations set(It, It, bool), set_mpz(It, It),
+   set(value_type, bool), set(uniform), set(non_uniform), set(hwt_dist), set(ZO_dist), set(gaussian) -- the functions translated from the source
+   and proved to be the models (C15_source_set_list, C15_source_set_mpz, C15_source_set_scalar above; C09; C12_source_set_hwt) -- and the 29
+   entry points the properties speak about are among them. *)
+From NTT Require CreatorsSpec.
+Theorem C15_source_creators :
+  List.forallb (fun e => CreatorsSpec.reaches 3 (CreatorsSpec.callee e)) GenCreators.gen_poly_creators = true /\
+  List.forallb (fun k => List.existsb (fun e => CreatorsSpec.key_eqb (CreatorsSpec.src e) k) GenCreators.gen_poly_creators) CreatorsSpec.creators_needed = true.
+Proof. exact CreatorsSpec.creators_reach_implementations. Qed.
+Print Assumptions C15_source_creators.
+Theorem C15_source_creator_present : forall k, List.In k CreatorsSpec.creators_needed ->
+  exists e, List.In e GenCreators.gen_poly_creators /\ CreatorsSpec.src e = k /\ CreatorsSpec.reaches 3 (CreatorsSpec.callee e) = true.
+Proof. exact CreatorsSpec.creator_present. Qed.
+Print Assumptions C15_source_creator_present.
